@@ -151,6 +151,7 @@ def run(res, proof):
                 lines.extend(hl); impl.extend(ho)
     caller_owned_arguments(res, iw, start, rng)
     names_reused(res, iw, rng)
+    user_classes(res, iw, rng)
     # ---- reactions: all multisets of reactants / products up to size 3 (sampled), all types, all permutations
     multis = [list(c) for n in (1, 2, 3) for c in itertools.combinations_with_replacement(CX[:4], n)]
     combos = [(r, p, t) for r in multis for p in multis for t in RTYPES]
@@ -383,6 +384,96 @@ def names_reused(res, iw, rng):
                 res.violation('names-reused:raises:' + type(e).__name__, desc, '%s: %s' % (type(e).__name__, str(e)[:100]), 'objects'); e = None
             gc.collect()
         del doms, pool, gen1, gen2
+    iw.reset()
+
+
+def user_classes(res, iw, rng):
+    """user subclasses: (a) a reaction / macrostate class whose constructor raises on its first call - the same request, made again in
+    any permutation, is then an ordinary first request (a failed construction leaves nothing behind that could refuse or redirect it);
+    (b) members of a user ComplexS subclass with its OWN ordering operators - sets and multisets are still identified and listed by
+    canonical form, whatever `<` the members define"""
+    import gc, itertools as it
+    from dsdobjects.base_classes import DomainS, ComplexS, MacrostateS, ReactionS
+    from dsdobjects import clear_singletons
+
+    class Sized(ComplexS):                      # orders by number of strands, then by name REVERSED: disagrees with the canonical order
+        def _k(self): return (-self.size, tuple(reversed(self.name)))
+        def __lt__(self, other): return self._k() < other._k()
+        def __gt__(self, other): return self._k() > other._k()
+        def __le__(self, other): return self._k() <= other._k()
+        def __ge__(self, other): return self._k() >= other._k()
+
+    class OnceR(ReactionS):
+        armed = True
+        def __init__(self, *a, **k):
+            if OnceR.armed:
+                OnceR.armed = False
+                raise RuntimeError('not yet')
+            super().__init__(*a, **k)
+
+    class OnceM(MacrostateS):
+        armed = True
+        def __init__(self, *a, **k):
+            super().__init__(*a, **k)
+            if OnceM.armed:
+                OnceM.armed = False
+                raise RuntimeError('not yet')
+
+    for trial in range(6):
+        iw.reset()
+        for K in (Sized, OnceR, OnceM):
+            clear_singletons(K)
+        Sized.ID = 1
+        OnceR.armed = OnceM.armed = True
+        doms = [DomainS(n, 5) for n in 'abc']
+        pool = [([doms[0]], '.'), ([doms[1], '+', doms[2]], '.+.'), ([doms[2]], '.'), ([doms[0], '+', doms[1], '+', doms[0]], '.+.+.'), ([doms[1], doms[0]], '..')]
+        picks = rng.sample(pool, 3)
+        for KC in (ComplexS, Sized):
+            desc = {'history': ['members of %s: %s' % (KC.__name__, '; '.join(' '.join(str(x) for x in q) for q, _ in picks))]}
+            res.evaluations += 1
+            res.count('user_class_scenarios')
+            try:
+                cx = [KC(list(q), list(st), name=n) for n, (q, st) in zip(['P', 'Q', 'R'], picks)]
+                ms = sorted(cx, key=lambda c: c.canonical_form)
+                # (a) failing constructors
+                for KX, mk in ((OnceR, lambda order: OnceR([cx[i] for i in order], [cx[0]], 'bind21')),
+                               (OnceM, lambda order: OnceM([cx[i] for i in order]))):
+                    KX.armed = True
+                    clear_singletons(KX)
+                    orders = list(it.permutations(range(3)))
+                    first = rng.choice(orders)
+                    try:
+                        mk(first)
+                        res.violation('user-class:failing-constructor-did-not-raise', desc, 'an object', 'RuntimeError from the user constructor')
+                    except RuntimeError as e:
+                        e = None
+                    got = []
+                    for order in orders:
+                        try:
+                            got.append(mk(order))
+                        except Exception as e:
+                            res.violation('user-class:request-after-failed-construction:' + type(e).__name__, dict(desc, then='%s requested in order %s after a constructor of the same request raised' % (KX.__name__, order)),
+                                          '%s: %s' % (type(e).__name__, str(e)[:80]), 'an ordinary (first or repeated) request: the object'); e = None
+                            break
+                    if got and any(g is not got[0] for g in got):
+                        res.violation('user-class:permutation-not-identified-after-failed-construction', desc, 'different objects', 'the same object')
+                    del got
+                # (b) members with their own ordering
+                m = MacrostateS(list(reversed(ms)))
+                if [id(c) for c in m.canonical_form] != [id(c) for c in ms] or m.name != ms[0].name or any(MacrostateS(list(p)) is not m for p in it.permutations(cx)):
+                    res.violation('macro:members-with-own-ordering', desc, '%s %s' % (m.name, [c.name for c in m.canonical_form]), 'canonical form %s, every permutation the same object' % [c.name for c in ms])
+                x = ReactionS(list(reversed(ms)), [ms[-1], ms[0]], 'open')
+                if [id(c) for c in x.reactants] != [id(c) for c in ms] or [id(c) for c in x.products] != [id(c) for c in (ms[0], ms[-1])] \
+                        or any(ReactionS(list(p), [ms[0], ms[-1]], 'open') is not x for p in it.permutations(cx)):
+                    res.violation('reaction:members-with-own-ordering', desc, '%s -> %s' % ([c.name for c in x.reactants], [c.name for c in x.products]),
+                                  'reactants %s in canonical order, every permutation the same object' % [c.name for c in ms])
+                del cx, ms, m, x
+            except Exception as e:
+                res.violation('user-class:raises:' + type(e).__name__, desc, '%s: %s' % (type(e).__name__, str(e)[:100]), 'objects'); e = None
+            gc.collect()
+            for K in (MacrostateS, ReactionS, OnceR, OnceM, KC):
+                clear_singletons(K)
+        del doms, pool, picks
     iw.reset()
 
 
